@@ -48,6 +48,7 @@ class SimFS:
         self.crashed = False
         self.dirty = {}  # path -> content before the first unsynced modification (None = did not exist)
         self.marker = None  # free-form tag of the current operation, copied into the trace
+        self.yield_hook = None
 
     # -- helpers -------------------------------------------------------------
     def abspath(self, path):
@@ -64,6 +65,8 @@ class SimFS:
         """Account one I/O call; returns the fault to apply or None."""
         if self.crashed:
             return {"kind": "dead"}
+        if self.yield_hook is not None:
+            self.yield_hook(kind, path)  # concurrent tasks: every I/O call is a scheduling point
         idx = self.io_index
         self.io_index += 1
         self.trace.append((idx, kind, path, size, self.marker))
